@@ -24,7 +24,7 @@ LEVEL_NOTE = ('chi^2 values are chosen off the thresholds (equality is outside t
 RULE = ("cases: chunks of kind sequences; executions: filter_output per (sequence, criterion, input form, naming); one evaluation per source placed; non-trivial = distinct "
         "(sequence, criterion) that contain both good and bad sources")
 ASSUMPTIONS = ["best chi^2 never equals the threshold", "n_data >= 1"]
-REQUIRED_CLASSES = ['ranking-ends-in-nan-rows', 'record-over-64KiB-among-small-ones', 'arguments-by-position', 'criterion-chi', 'criterion-cpd', 'auto-names', 'explicit-names', 'input-file', 'input-list', 'all-good', 'all-bad', 'mixed', 'good-by-chi-only', 'good-by-cpd-only',
+REQUIRED_CLASSES = ['ranking-with-tied-rows', 'output-names-derived-from-the-input-name', 'bare-output-names', 'ranking-ends-in-nan-rows', 'record-over-64KiB-among-small-ones', 'arguments-by-position', 'criterion-chi', 'criterion-cpd', 'auto-names', 'explicit-names', 'input-file', 'input-list', 'all-good', 'all-bad', 'mixed', 'good-by-chi-only', 'good-by-cpd-only',
                     'length-10', 'one-name-explicit', 'best-chi2-nan-or-inf', 'flags-edited-in-place-between-calls']
 TIMEOUT = {'quick': 600, 'thorough': 3000}
 
@@ -34,8 +34,9 @@ KINDS = {'G': (4.0, (1, 4, 0, 9)), 'C': (8.0, (1, 1, 2, 3)), 'P': (12.0, (1, 1, 
          'N': (float('nan'), (1, 1, 4)), 'I': (float('inf'), (1, 4)),        # a best chi^2 that is NaN or infinite is not below any threshold
          'T': (4.0, (1, 4, 0, 9)),        # like G, but the ranking ends in NaN rows (invalid models ranked last): the best chi^2 is still 4
          'H': (4.0, (1, 4, 0, 9)),        # like G, with 400 fits and their fluxes: a record of more than 64 KiB among small ones
-         'J': (40.0, (4, 1, 3))}         # like B, 400 fits
-GOOD = {'chi': {'G', 'C', 'T', 'H'}, 'cpd': {'G', 'P', 'T', 'H'}}
+         'J': (40.0, (4, 1, 3)),         # like B, 400 fits
+         'Q': (4.0, (1, 4, 0, 9))}       # like G, four fits of which the last two are tied at 1e30 (and the model indices are not in rank order)
+GOOD = {'chi': {'G', 'C', 'T', 'H', 'Q'}, 'cpd': {'G', 'P', 'T', 'H', 'Q'}}
 
 
 def setup(tier, seed):
@@ -61,6 +62,10 @@ def setup(tier, seed):
             if ('H' in t or 'J' in t) and (tier == 'thorough' or sum(1 for x in t if x in 'HJ') == 1):
                 seqs.append(''.join(t))
     seqs += ['GBGHGBJB', 'BGJGHG']
+    for L in (1, 2, 3):
+        for t in itertools.product('GBQ', repeat=L):
+            if 'Q' in t:
+                seqs.append(''.join(t))
     chunk = 60
     return {'tier': tier, 'seed': seed, 'cases': [{'seqs': seqs[i:i + chunk], 'first': i} for i in range(0, len(seqs), chunk)]}
 
@@ -98,11 +103,13 @@ def _record(kind, idx, meta):
     n = 1 + idx % 3
     if kind in 'HJ':
         n = 400
-    if kind == 'T':
+    if kind in 'TQ':
         n = 4
     i.chi2 = best + np.arange(n) * 1.75 + 0.01 * idx if best == best else np.array([best] * n)
     if kind == 'T':
         i.chi2[2:] = np.nan
+    if kind == 'Q':
+        i.chi2[2:] = 1e30
     i.av = np.arange(n) * 0.5
     i.sc = np.arange(n) * -0.25
     i.model_id = np.arange(n)[::-1].copy()
@@ -139,7 +146,7 @@ def run_case(ctx, case, rec, d):
         for crit in ('chi', 'cpd'):
             form = ['file', 'list'][(idx + (crit == 'cpd')) % 2] if len(seq) > 3 else None
             for frm in (['file', 'list'] if form is None else [form]):
-                naming = ['auto', 'explicit', 'good-explicit', 'bad-explicit'][(idx + len(seq)) % 4] if frm == 'file' else 'explicit'
+                naming = ['auto', 'explicit', 'good-explicit', 'bad-explicit', 'derived', 'bare'][(idx + len(seq)) % 6] if frm == 'file' else ['explicit', 'bare'][(idx + len(seq)) % 2]
                 n += 1
                 recs = [_record(k, j, meta) for j, k in enumerate(seq)]
                 want_c = [canon(_strip(r)) for r in recs]
@@ -160,6 +167,18 @@ def run_case(ctx, case, rec, d):
                 if naming in ('explicit', 'bad-explicit'):
                     bad_p = os.path.join(d, 'b_%d' % n)
                     kw['output_bad'] = bad_p
+                if naming == 'derived':
+                    # explicit names derived from the input's own name
+                    good_p, bad_p = inp + '.good', inp + '.bad'
+                    kw['output_good'], kw['output_bad'] = good_p, bad_p
+                    rec.cls('output-names-derived-from-the-input-name')
+                cwd0 = os.getcwd()
+                if naming == 'bare':
+                    # bare file names, relative to the working directory
+                    os.chdir(d)
+                    kw['output_good'], kw['output_bad'] = 'bg_%d' % n, 'bb_%d' % n
+                    good_p, bad_p = os.path.join(d, 'bg_%d' % n), os.path.join(d, 'bb_%d' % n)
+                    rec.cls('bare-output-names')
                 sub = {'seq': seq, 'criterion': crit, 'form': frm, 'naming': naming}
                 try:
                     if naming == 'explicit' and n % 3 == 0:
@@ -173,16 +192,20 @@ def run_case(ctx, case, rec, d):
                     from mc.runner import exc_signature
                     rec.violation('filter_output|' + exc_signature(e), sub, {'type': type(e).__name__, 'msg': str(e)[:300]})
                     continue
+                finally:
+                    os.chdir(cwd0)
                 rec.trans()
                 rec.trace()
                 rec.ev(len(seq))
                 rec.state((seq, crit, frm, naming))
                 rec.cls('criterion-' + crit)
-                rec.cls({'auto': 'auto-names', 'explicit': 'explicit-names'}.get(naming, 'one-name-explicit'))
+                rec.cls({'auto': 'auto-names', 'explicit': 'explicit-names', 'derived': 'explicit-names', 'bare': 'explicit-names'}.get(naming, 'one-name-explicit'))
                 if 'N' in seq or 'I' in seq:
                     rec.cls('best-chi2-nan-or-inf')
                 if 'T' in seq:
                     rec.cls('ranking-ends-in-nan-rows')
+                if 'Q' in seq:
+                    rec.cls('ranking-with-tied-rows')
                 if ('H' in seq or 'J' in seq) and len(seq) > 1:
                     rec.cls('record-over-64KiB-among-small-ones')
                 rec.cls('input-' + frm)
